@@ -193,6 +193,78 @@ theorem c26_roundtrip (K : Keys) (C : Crypto) (encode : Node → Bytes) (decode 
     have := look e.1 v (by simp [rawNode, h2])
     simp [metadata, hres', this]
 
+/-- `MetadataEntries` of a created record yields exactly the (converted) metadata entries that were
+given — no reserved field, nothing else — and `MetadataExists` agrees with it. -/
+theorem c26_metadata_entries (K : Keys) (encode : Node → Bytes) (sk : Nat) (value : Bytes) (seq : Nat)
+    (validity : Bytes) (ttl : Int) (o : Opts) (sizeOf : Pb → Nat) (rec : Record)
+    (hkeys : (o.metadata.map (·.1)).Nodup)
+    (hnew : newRecord K encode sk value seq validity ttl o sizeOf = .ok rec) :
+    ∃ ms, checkAll o.metadata = .ok ms ∧ (∀ e, e ∈ metadataEntries rec ↔ e ∈ ms) ∧
+      (∀ k, metadataExists rec k = true ↔ k ∈ ms.map (·.1)) := by
+  obtain ⟨ms, hc, hnode, _⟩ := newRecord_shape K encode sk value seq validity ttl o sizeOf rec hnew
+  obtain ⟨hk1, hk2, _⟩ := checkAll_keys o.metadata ms hc
+  have hperm := sortNode_perm (rawNode ms value seq validity ttl)
+  have hmem : ∀ e, e ∈ metadataEntries rec ↔ e ∈ ms := by
+    intro e
+    simp only [metadataEntries, hnode, List.mem_filter]
+    rw [hperm.mem_iff]
+    simp only [rawNode, List.mem_append, List.mem_cons, List.mem_nil_iff, or_false]
+    constructor
+    · rintro ⟨h | h | h | h | h | h, hr⟩
+      · exact h
+      all_goals (subst h; simp [reservedKeys] at hr)
+    · intro h
+      refine ⟨.inl h, ?_⟩
+      have := (hk2 e.1 (List.mem_map_of_mem (f := (·.1)) h)).2
+      have h' : ¬ e.1 ∈ reservedKeys := by simpa using this
+      simp [h']
+  refine ⟨ms, hc, hmem, ?_⟩
+  intro k
+  have hnd : ((rawNode ms value seq validity ttl).map (·.1)).Nodup := by
+    simp only [rawNode, List.map_append, List.map_cons, List.map_nil]
+    rw [List.nodup_append]
+    refine ⟨by rw [hk1]; exact hkeys, by decide, ?_⟩
+    intro a ha b hb
+    have := (hk2 a ha).2
+    intro e; subst e
+    simp only [List.mem_cons, List.mem_nil_iff, or_false] at hb
+    rcases hb with rfl | rfl | rfl | rfl | rfl <;> simp [reservedKeys] at this
+  unfold metadataExists
+  by_cases hr : reservedKeys.contains k = true
+  · simp only [hr, if_true, Bool.false_eq_true, false_iff]
+    intro hm
+    have := (hk2 k hm).2
+    rw [hr] at this; simp at this
+  · have hr' : reservedKeys.contains k = false := by simpa using hr
+    simp only [hr', Bool.false_eq_true, if_false]
+    constructor
+    · intro hs
+      obtain ⟨v, hv⟩ := Option.isSome_iff_exists.mp hs
+      -- a successful lookup returns an entry of the node
+      have hin : (k, v) ∈ rec.node := by
+        unfold lookup at hv
+        cases hf : rec.node.find? (·.1 == k) with
+        | none => simp [hf] at hv
+        | some e =>
+          simp only [hf, Option.map_some, Option.some.injEq] at hv
+          have h1 := List.mem_of_find?_eq_some hf
+          have h2 := List.find?_some hf
+          simp only [beq_iff_eq] at h2
+          rw [← hv, ← h2]; exact h1
+      have : (k, v) ∈ metadataEntries rec := by
+        simp only [metadataEntries, List.mem_filter]
+        have hr'' : ¬ k ∈ reservedKeys := by simpa using hr'
+        exact ⟨hin, by simp [hr'']⟩
+      exact List.mem_map_of_mem (f := (·.1)) ((hmem (k, v)).mp this)
+    · intro hm
+      obtain ⟨e, he, hek⟩ := List.mem_map.mp hm
+      have : lookup rec.node k = some e.2 := by
+        rw [hnode]
+        apply lookup_sortNode _ k e.2 hnd
+        simp only [rawNode, List.mem_append]
+        left; rw [← hek]; exact he
+      simp [this]
+
 /-- RFC3339Nano: `time.Parse(RFC3339Nano, t.UTC().Format(RFC3339Nano)) = t` for every instant of the
 years 0001–9999, to the nanosecond — for the MODEL of format/parse in `BoxoModel/C26/Time.lean`
 (civil date from the day number, zero-padded fields, fraction with trailing zeros dropped; parser with
